@@ -149,7 +149,14 @@ def run_quad(c, rec):
         v = _f(v)
         return float(np.exp(v)) if np.isfinite(v) else 0.0
     # heavy tails / endpoint singularities: split at the centre, generous limit
-    pieces = [(lo, centre), (centre, hi)]
+    cuts = [centre]
+    if fam in ("Normal", "Laplace", "Cauchy"):
+        # the density's mode (for Laplace: its kink) must be an interval end point, otherwise quad's error estimate is too
+        # optimistic (seen at location=2^-9: integral 1.0000019 with claimed error 6e-11)
+        cuts.append(g("mean") if fam == "Normal" else g("location"))
+    cuts = sorted(set(x for x in cuts if lo < x < hi))
+    ends = [lo] + cuts + [hi]
+    pieces = list(zip(ends[:-1], ends[1:]))
     total, err = 0.0, 0.0
     for a_, b_ in pieces:
         if a_ == b_:
@@ -164,11 +171,11 @@ def run_quad(c, rec):
             integral=total, err=err)
     if ref.has_cdf() and hasattr(d, "cdf"):
         x = ref.inside(c["raw"])[0]
-        v, e = quad(pdf, lo, x, limit=400) if x <= centre else (None, None)
-        if v is None:
-            v1, e1 = quad(pdf, lo, centre, limit=400)
-            v2, e2 = quad(pdf, centre, x, limit=400)
-            v, e = v1 + v2, e1 + e2
+        ends2 = [lo] + [t for t in cuts if t < x] + [x]
+        v, e = 0.0, 0.0
+        for a_, b_ in zip(ends2[:-1], ends2[1:]):
+            v1, e1 = quad(pdf, a_, b_, limit=400)
+            v, e = v + v1, e + e1
         if e > 1e-6:
             rec.inconc("quadrature_error_estimate_too_large")
             return
